@@ -501,6 +501,13 @@ def check_circuit_load(case, r: R):
 def cir_entry(draw, kind, cid, nodes):
     cz = st.builds(complex, gen.pos_real(-2, 4), st.one_of(st.just(0.0), gen.signed_real(-2, 4)))
     cs = st.builds(complex, gen.signed_real(), st.one_of(st.just(0.0), gen.signed_real()))
+    # zero is a legal value of every entry (0 Ohm jumper, source switched off, ...): one draw in eight
+    zero = draw(st.integers(0, 7)) == 0
+    if zero:
+        posv = nz = st.sampled_from([0, 0.0])
+        cz = cs = st.sampled_from([0j, complex(0.0, 0.0)])
+    else:
+        posv, nz = globals()['posv'], globals()['nz']
     v = {}
     if kind == 'resistor':
         v = {'R': draw(posv)}
